@@ -137,13 +137,16 @@ const defaultMaxCalls = 300
 
 // Interpret runs the histories on the reference interpreter and returns one
 // trace per history plus the monitor violations of each.
-func Interpret(p *winterp.Program, hs []History, monitors bool) (traces []string, viols [][]winterp.Violation, stats []winterp.Stats, err error) {
+func Interpret(p *winterp.Program, hs []History, monitors bool, judge ...string) (traces []string, viols [][]winterp.Violation, stats []winterp.Stats, err error) {
 	sigs := Sigs(p)
 	getters := p.Getters()
 	for _, h := range hs {
 		var tr bytes.Buffer
 		in := winterp.New(p)
 		in.Monitors = monitors
+		if len(judge) > 0 {
+			in.Judge = judge[0]
+		}
 		src, dst := &winterp.IOBuf{}, &winterp.IOBuf{Writer: true}
 		aborted := false
 		getterLine := func() {
@@ -282,7 +285,7 @@ func Interpret(p *winterp.Program, hs []History, monitors bool) (traces []string
 		}
 		in.Drop()
 		traces = append(traces, tr.String())
-		viols = append(viols, in.Viol)
+		viols = append(viols, append(in.Viol, in.Other...))
 		stats = append(stats, in.Stats)
 		if err != nil {
 			return traces, viols, stats, err
